@@ -512,3 +512,38 @@ def const_expr_systematic():
                         e = e.replace("(N - 4)", "(3 - 4)")
                     out.append((ctx % e).encode("utf-8"))
     return out
+
+
+def assoc_pairs():
+    """(name, program, program with the grouping naga's parser chooses written out).  One pair per ordered pair of
+    operators that share a precedence level, plus unary/postfix combinations; both texts must compile to the same
+    code.  (WGSL itself does not allow some of these chains unparenthesised - `a << b << c`, `a < b < c`, mixing
+    `&` with `|` - where naga accepts them its reading is the left-to-right one written on the right.)"""
+    hdr = ("@group(0) @binding(0) var<storage, read_write> o: array<u32, 8>;\n"
+           "@group(0) @binding(1) var<storage, read_write> s: array<i32, 8>;\n"
+           "@group(0) @binding(2) var<storage, read_write> f: array<f32, 8>;\n@compute @workgroup_size(1) fn main() {\n"
+           "  let a = o[1]; let b = o[2]; let c = o[3]; let i = s[1]; let j = s[2]; let k = s[3]; let x = f[1]; let y = f[2]; let z = f[3];\n")
+    levels = [("mul", ["*", "/", "%"], "a", "(b | 1u)", "(c | 1u)", "o[0]"), ("add", ["+", "-"], "i", "j", "k", "s[0]"),
+              ("shift", ["<<", ">>"], "a", "(b & 7u)", "(c & 7u)", "o[0]"), ("and", ["&"], "a", "b", "c", "o[0]"),
+              ("or", ["|"], "a", "b", "c", "o[0]"), ("xor", ["^"], "a", "b", "c", "o[0]"),
+              ("fadd", ["+", "-"], "x", "y", "z", "f[0]"), ("fmul", ["*", "/"], "x", "y", "z", "f[0]")]
+    out = []
+    for lname, ops, p, q, r, dst in levels:
+        for o1 in ops:
+            for o2 in ops:
+                chain = "%s %s %s %s %s" % (p, o1, q, o2, r)
+                grouped = "(%s %s %s) %s %s" % (p, o1, q, o2, r)
+                out.append(("assoc_%s_%s_%s" % (lname, o1, o2), hdr + "  %s = %s;\n}\n" % (dst, chain), hdr + "  %s = %s;\n}\n" % (dst, grouped)))
+    for lname, o1, o2 in (("andand", "&&", "&&"), ("oror", "||", "||")):
+        chain = "a < b %s b < c %s c < a" % (o1, o2)
+        grouped = "((a < b) %s (b < c)) %s (c < a)" % (o1, o2)
+        out.append(("assoc_%s" % lname, hdr + "  o[0] = select(0u, 1u, %s);\n}\n" % chain, hdr + "  o[0] = select(0u, 1u, %s);\n}\n" % grouped))
+    mixed = [("mul_add", "i + j * k - i / (j | 1)", "(i + (j * k)) - (i / (j | 1))", "s[0]"),
+             ("shift_add", "a << (b & 7u) + 1u", "a << ((b & 7u) + 1u)", "o[0]"),
+             ("cmp_add", "select(0u, 1u, a + b < c * a)", "select(0u, 1u, (a + b) < (c * a))", "o[0]"),
+             ("unary_mul", "-i * j", "(-i) * j", "s[0]"), ("not_and", "~a & b", "(~a) & b", "o[0]"),
+             ("neg_neg", "- -i", "-(-i)", "s[0]"), ("unary_index", "-s[2]", "-(s[2])", "s[0]"),
+             ("andand_oror", "select(0u, 1u, a < b || b < c && c < a)", "select(0u, 1u, (a < b) || ((b < c) && (c < a)))", "o[0]")]
+    for n, chain, grouped, dst in mixed:
+        out.append(("assoc_%s" % n, hdr + "  %s = %s;\n}\n" % (dst, chain), hdr + "  %s = %s;\n}\n" % (dst, grouped)))
+    return out
